@@ -249,6 +249,45 @@ def run_lite(sim, nfc, params):
                                 "authenticate(wrong key) returned True when the answers to the MAC reads were replaced by "
                                 "well-formed responses with %d block(s); %r" % (kblocks, desc), {"clause": "tamper"})
             sim.probe("tamper.detected")
+        replay_step(sim, nfc, w, prod, key, desc)
+
+
+def replay_step(sim, nfc, w, prod, key, desc):
+    """an eavesdropper's tag: it does not hold the key, it answers every command it has seen before with the answer
+    recorded then.  A second authenticate() on the same Tag object must not accept it (fresh challenge)."""
+    from dsim.w1 import felica_lite
+    tag = w.restart()
+    seen = {}
+
+    def record(idx, cmd, rsp):
+        seen[bytes(cmd)] = bytes(rsp) if rsp is not None else None
+        return rsp
+    w.device.tamper = record
+    if call_auth(sim, tag, key, desc, "replay-record") is not True:
+        w.device.tamper = None
+        sim.probe("replay.setup_failed")
+        return
+    # the genuine tag is replaced by one with another card key that replays what was recorded
+    other = bytes(b ^ 0x5A for b in key)
+    w.silicon.blk[felica_lite.CK][:] = felica_lite.rev(other[0:8]) + felica_lite.rev(other[8:16])
+    hits = [0]
+
+    def replay(idx, cmd, rsp):
+        r = seen.get(bytes(cmd))
+        if r is not None:
+            hits[0] += 1
+            return r
+        return rsp
+    w.device.tamper = replay
+    sim.fault("replayed_answers")
+    got = call_auth(sim, tag, key, desc, "replay")
+    w.device.tamper = None
+    sim.cls(prod, "replay", repr(got), hits[0] > 0)
+    if got is True:
+        raise Violation("replay-accepted", prod, "a second authenticate() on the same tag object returned True for a tag that "
+                        "does not hold the key and only replays the answers recorded during the first authentication "
+                        "(%d answers replayed): the challenge was not fresh; %r" % (hits[0], desc), {"clause": "tamper"})
+    sim.probe("replay.rejected")
 
 
 def run_ntag(sim, nfc, params):
